@@ -38,22 +38,50 @@ def group(gid, ref, variants, reps=2):
 
 # ---------------------------------------------------------------------------- C07
 def c07_cases(tier, rng):
-    combos = grid(p1=K.P1S, p2=K.P2S, p4=K.P4_ALL, p5=["poly", "ortho", "straight", "splines"],
+    # half of the cases with the greedy breaker: it has the most order-sensitive bookkeeping (sources / sinks / reversal lists)
+    combos = grid(p1=["greedy", "dfs", "greedy", "dfsrand"], p2=K.P2S, p4=K.P4_ALL, p5=["poly", "ortho", "straight", "splines"],
                   size=["all", "fixed+some"], pat=["het", "odd"])
     # inputs on which order-sensitive iteration can matter: several components, self-loops, parallel/antiparallel pairs
     inputs = [(n, e) for n, e, r in K.family(fam_E(tier)) if r["conn"] == 0 or r["loops"] >= 1 or r["simple"] == 0 or len(e) >= 4]
     rng.shuffle(inputs)
     inputs = inputs[:1200 if tier == "quick" else 12000]
+    dense = random_inputs(rng, 1500 if tier == "quick" else 15000, 4, 6, density=1.7, loop_rate=0.03, par_rate=0.05, anti_rate=0.15)
     rnd = random_inputs(rng, 500 if tier == "quick" else 6000, 4, 14, density=1.3, loop_rate=0.15) + \
         random_inputs(rng, 700 if tier == "quick" else 8000, 6, 14, density=1.3, connected=True, simple=True, loop_rate=0) + \
-        random_inputs(rng, 1500 if tier == "quick" else 15000, 4, 6, density=1.7, loop_rate=0.03, par_rate=0.05, anti_rate=0.15) + \
+        dense + \
         random_inputs(rng, 800 if tier == "quick" else 8000, 5, 8, density=1.5, connected=True, simple=True, loop_rate=0)
+    # flowers: several cycles through one node (petals of 2-4 nodes, optionally sharing a stem), edge list shuffled: the breaker has
+    # to reverse several edges that end in the same node, which is where the order of reversals shows in the adjacency lists
+    flowers = []
+    for _ in range(400 if tier == "quick" else 4000):
+        es, nid = [], 1
+        stem = 0
+        if rng.random() < 0.4:
+            es.append((0, nid))
+            stem = nid
+            nid += 1
+        for _p in range(rng.randint(2, 4)):
+            prev = stem
+            for _k in range(rng.randint(1, 3)):
+                es.append((prev, nid))
+                prev = nid
+                nid += 1
+            es.append((prev, 0))
+        if rng.random() < 0.3:
+            es.append((rng.randrange(nid), rng.randrange(nid)))
+        rng.shuffle(es)
+        flowers.append(K.canon(es))
+    dense = dense + flowers
+    rnd = rnd + flowers
+    dense_keys = {tuple(map(tuple, e)) for _, e in dense}
     gid = 0
     nspl = 0
     for (n, e), cb in rotate(inputs + rnd, combos, 1, rng):
         gid += 1
         c = apply(n, e, cb)
         c["after"] = 1
+        if tuple(map(tuple, e)) in dense_keys:
+            c["p1"] = "greedy"     # many short cycles: several reversed edges per node, the greedy breaker's bookkeeping decides
         # the spline router aborts on many inputs (known finding F-SPLINES, judged by C01): keep a small share of it here
         if c["p5"] == "splines":
             nspl += 1
@@ -62,6 +90,8 @@ def c07_cases(tier, rng):
         # besides the logged repetitions, the driver repeats the reference 40 (thorough: 120) more times in-process and
         # logs those runs whose result differs (every logged run is judged by the specification)
         c["reps"] = (40 if tier == "quick" else 120) if c["p5"] != "splines" else 0   # the spline router can abort the worker
+        if c["reps"] and n <= 7:
+            c["reps"] *= 6          # small inputs cost microseconds: a minority outcome of 1 run in 10 must not slip through
         yield from group(gid, c, [], reps=2 if tier == "quick" else 5)
 
 
